@@ -274,3 +274,56 @@ Definition x_backslash (n k : nat) (w : str) : ldoc -> ldoc :=
 (* insert a filler run (blank line, comment line) before every command *)
 Definition x_filler (f : segment) : ldoc -> ldoc :=
   fun d => mkdoc (map (fun c => mkcmd (f :: pre c) (chead c) (conts c)) (cmds d)) (post d).
+
+(* ======================================================================================
+   The load verb: Builder.buildLoad pushes the current file, opens the named one and the
+   build loop goes on reading THERE; at its end the pushed file is resumed after the load
+   line.  A load command is never connective-continued and the look-ahead never crosses a
+   file boundary (EOF ends it), so the dispatched stream of a set of files is the
+   substitution of each file's own command list at its load commands.
+   cmdsOf n = the commands of file n (None: the file cannot be opened -> IOError, build stops).
+   Result: the commands offered to dispatch, and whether the build loop ran to the end
+   (false: malformed load -> ParseError, missing file, or fuel exhausted by recursive loads).
+   Dispatch failures of OTHER verbs are outside this model.
+   ====================================================================================== *)
+Inductive load_kind := LNo | LBad | LFile (n : str).
+Definition load_target (c : list str) : load_kind :=
+  match c with
+  | h :: args => if str_eqb h gen_load_word then
+                   match args with [n] => LFile n | _ => LBad end
+                 else LNo
+  | [] => LNo
+  end.
+
+Section Load.
+Variable cmdsOf : str -> option (list (list str)).
+
+Fixpoint expand (fuel : nat) (cs : list (list str)) {struct fuel} : list (list str) * bool :=
+  (fix go (cs : list (list str)) : list (list str) * bool :=
+     match cs with
+     | [] => ([], true)
+     | c :: rest =>
+         match load_target c with
+         | LNo => (c :: fst (go rest), snd (go rest))
+         | LBad => ([c], false)
+         | LFile n =>
+             match fuel with
+             | O => ([c], false)
+             | S f =>
+                 match cmdsOf n with
+                 | None => ([c], false)
+                 | Some sub =>
+                     if snd (expand f sub)
+                     then (c :: fst (expand f sub) ++ fst (go rest), snd (go rest))
+                     else (c :: fst (expand f sub), false)
+                 end
+             end
+         end
+     end) cs.
+End Load.
+
+(* a file system of physical files / of laid-out documents *)
+Definition stream_of_files (fs : str -> option (list pline)) (fuel : nat) (root : list pline) :=
+  expand (fun n => option_map commands (fs n)) fuel (commands root).
+Definition render_fs (fsd : str -> option ldoc) : str -> option (list pline) :=
+  fun n => option_map render (fsd n).
